@@ -283,3 +283,15 @@ Theorem C12_history_example :
    Some (OVerdict true)].
 Proof. exact hist_example. Qed.
 Print Assumptions C12_history_example.
+
+(* a successful poll that answers with NO chain config replaces the role map by the empty one (it is not a failed poll:
+   the previous map does not stay), and under the empty role map every commit observation is rejected *)
+Theorem C12_history_empty_poll : forall O d f polls,
+  Forall short_poll polls -> hist_cfg O d f (polls ++ [Some []]) = cfg_of_home O d f [].
+Proof. exact hist_cfg_empty_poll. Qed.
+Print Assumptions C12_history_empty_poll.
+
+Theorem C12_history_empty_rejects : forall O d f retry o ob,
+  validate_commit (cfg_of_home O d f []) retry o ob = false.
+Proof. exact empty_cfg_rejects_commit. Qed.
+Print Assumptions C12_history_empty_rejects.
